@@ -177,7 +177,7 @@ theorem Mono.trans {a b c : AttrAcc} (h1 : Mono a b) (h2 : Mono b c) : Mono a c 
 
 theorem vmodelStep_mono (o : Opts) (c : Bool) (a t m : Option Node) (v : Node) (acc : AttrAcc) :
     Mono acc (vmodelStep o c a t m v acc) := by
-  unfold vmodelStep Mono
+  unfold vmodelStep vmodelStepK vmodelArgKind Mono
   simp only
   refine ⟨?_, ?_, ?_, ?_⟩ <;> intros <;> (repeat' split) <;> simp_all [mem_insertUnique]
 
